@@ -24,7 +24,7 @@ THOROUGH = TIER == "thorough"
 
 vlib.setup_impl_path()
 rep = vlib.Report("C10", TIER)
-vlib.regen("Skeleton", "Policy", "Wire", "Hsm")
+vlib.regen("Skeleton", "Policy", "Wire", "Hsm", "Schemas")
 props = vlib.build_props("C10")
 rep.add_props(props)
 
@@ -231,6 +231,7 @@ def ksr_for(state, variant, seq):
 
 
 SEQ = [0]
+FOLLOWS = {}
 
 
 def run_transition(state, schema_name, variant, model=True):
@@ -273,6 +274,7 @@ def run_transition(state, schema_name, variant, model=True):
     want = specs.validate(now, POL, kreq)
     reason = "" if want else "KSR rules"
     expected_new = skrgen.simulate_skr(ksr, SCHEMAS[schema_name], KSKS, ZP)
+    want_chain_ok = want and (state is None or chain_spec(ksr, state["skr"]))
     if want and state is not None:
         if not chain_spec(ksr, state["skr"]):
             want, reason = False, "chain rules"
@@ -328,7 +330,7 @@ def run_transition(state, schema_name, variant, model=True):
         else:
             impl = f"(Raise {r[1] if r[0] == 'exc' else EXN['OtherError']})"
         kks = "[" + ";".join(f"({txt(n)}, {S.coq_ksk(dd)})" for n, dd in KSKCFG.items()) + "]"
-        cases.append(f"({coq_reqpolicy(POL)}, {CFG.response_policy.num_bundles}, {coq_bool(CFG.response_policy.validate_signatures)}, {z(CFG.ksk_policy.ttl)}, {kks}, "
+        cases.append(f"CCeremony ({coq_reqpolicy(POL)}, {CFG.response_policy.num_bundles}, {coq_bool(CFG.response_policy.validate_signatures)}, {z(CFG.ksk_policy.ttl)}, {kks}, "
                      f"{coq_sigpolicy(CFG.ksk_policy.signature_policy)}, {prev_lit}, {z(us(now))}, {S.coq_schema(SCHEMAS[schema_name])}, "
                      f"{coq_request(kreq, with_txt='handle', with_data='handle', with_pub=True, keep_order=True)}, {S.coq_modules(MODULES)}, {oracles}, true, {impl})")
         meta.append({"kind": f"{variant}", "desc": {"history": (state["trail"] if state else []), "schema": schema_name, "variant": variant,
@@ -337,6 +339,8 @@ def run_transition(state, schema_name, variant, model=True):
     elif probs:
         rep.violation("impl-vs-spec", f"{variant} after {state['trail'] if state else []} with schema {schema_name}: {'; '.join(probs[:3])}",
                       {"history": state["trail"] if state else [], "schema": schema_name, "variant": variant})
+    if variant == "honest" and state is not None and want_chain_ok:
+        FOLLOWS[(state["trail"][-1], schema_name)] = accepted
     count("ceremony")
     count(f"variant-{variant}")
     count("accepted" if accepted else "refused")
@@ -373,9 +377,14 @@ while frontier and level < DEPTH:
     level += 1
     count(f"level-{level}-states", len(frontier))
 
+for (a_, b_), acc in sorted(FOLLOWS.items()):
+    cases.append(f'CFollows "{a_}" "{b_}" {coq_bool(acc)}')
+    meta.append({"kind": "schema-pair", "desc": {"previous": a_, "next": b_, "accepted": acc}, "spec_ok": True, "spec_msg": "", "key": None})
+count("schema-pairs-observed", len(FOLLOWS))
 vp.datetime = dt.datetime
+vlib.regen("Schemas")
 ok_build, blog = vlib.make(["Checks/C10Check.vo"])
-runner = vlib.CaseRun("C10", "main", "From KV Require Import Base.Prelude Base.Exn Model.Data Model.KsrPolicy Model.Chain Model.Token Model.Sign Model.History Checks.SignCheck Checks.C10Check.",
+runner = vlib.CaseRun("C10", "main", "From Coq Require Import String.\nFrom KV Require Import Base.Prelude Base.Exn Model.Data Model.KsrPolicy Model.Chain Model.Token Model.Sign Model.History Checks.SignCheck Checks.C10Check.\nOpen Scope string_scope.",
                       "case", "check", shard=4)
 results = runner.run(cases) if ok_build else [-1] * len(cases)
 vlib.classify(rep, props, meta, results, cases, runner, "Checks.C10Check.check (one ceremony: reload, KSR checks, chain checks, signing, safety checks)")
